@@ -22,7 +22,8 @@ Record.ttl_expiry (C10) and recovery stores the parsed value back unchanged; mig
 filtering off. Not decided: wall-clock behaviour, sweeper interleavings.
 """
 DECIDED = ["(a) one strict expiry predicate", "(b) lazy check before any bytes are returned", "(c) re-validation under the guard; recovery order",
-           "(d) saturating expiry arithmetic", "(e) parsed expiry stored unchanged by recovery"]
+           "(d) saturating expiry arithmetic", "(e) parsed expiry stored unchanged by recovery",
+           'the lazy expiry test reads the clock inside resolve_record_value, never a caller-supplied now']
 NOT_DECIDED = ["(f) wall-clock behaviour / timing", "sweeper vs writer interleavings"]
 ASSUMPTIONS = ["SystemTime::now() is the only clock source for `now`"]
 
